@@ -500,6 +500,7 @@ func (c *Connection) sendMessage(msg message) error {
 
 	select {
 	case c.sendCh <- frame:
+		verifPoint("conn.sendMessage.sent", msg.ID())
 		return nil
 	default:
 		return ErrSendBufferFull
@@ -573,6 +574,7 @@ func (c *Connection) SendSystemError(id uint32, span Span, err error) (sendErr e
 
 		select {
 		case c.sendCh <- frame: // Good to go
+			verifPoint("conn.SendSystemError.sent", id)
 			return nil
 		default: // If the send buffer is full, log and return an error.
 		}
